@@ -132,7 +132,62 @@ def apply_ops(ct, ops):
     return ct
 
 
+def derive_job(job):
+    """update_template(circuits=...) without in_place returns a NEW template: overrides applied to the derived template
+    must not reach the template it was derived from (and vice versa)"""
+    rnd = random.Random(job['seed'])
+    spec, fp = base_spec(job['shared'], True)
+    fp0 = copy.copy(fp)
+    ops_init, exp_init, _ = gen_history(spec, fp0, random.Random(0), 0, True)
+    ops, exp, kw = gen_history(spec, fp, rnd, job['length'], True)
+    kw = {}                     # apply-time values are not part of this scenario
+    n_init = len(ops_init)
+    ops = [o for o in ops if o[0] == 'update_var']
+    # always at least one constant and one initial value inside the sub-circuit that is NOT replaced (c0)
+    ops.append(('update_var', 'c0/a1/o1/k', float(fp())))
+    ops.append(('update_var', 'c0/b0/li/x', float(fp())))
+    # expectation for the derived template: all update_var operations; for the base: the initialising ones only
+    exp_d = copy.deepcopy(exp_init)
+    for o in ops[n_init:]:
+        tn, op_, var_ = addressed(spec, o[1])
+        vs = o[2] if isinstance(o[2], list) else [o[2]] * len(tn)
+        for nn, v in zip(tn, vs):
+            exp_d.nodes[nn].overrides[(op_, var_)] = F(v)
+    base_ct = build_python(spec)
+    apply_ops(base_ct, ops[:n_init])
+    which = job.get('derive_on', 'derived')
+    derived = base_ct.update_template(name='m_derived', circuits={'c1': copy.deepcopy(base_ct.circuits['c1'])})
+    if which == 'derived':
+        apply_ops(derived, ops[n_init:])
+        pairs = [('derived template', derived, exp_d), ('template it was derived from', base_ct, exp_init)]
+    else:
+        apply_ops(base_ct, ops[n_init:])
+        pairs = [('template it was derived from', base_ct, exp_d), ('derived template', derived, exp_init)]
+    T = decide.Tally()
+    res_all = dict(violations=[], inconclusive=[], obligations=[], diagnostics=[])
+    src = ''
+    for label, ct, ex in pairs:
+        try:
+            c = tv.compile_template(ct, vectorize=job['vectorize'], in_place=False)
+        except tv.CompileError as e:
+            return dict(status='compile-raises', error=f"{label}: {e}", exp_spec=ex)
+        res = tvspec.validate(ex, c, T, vectorized=job['vectorize'])
+        for v in res['violations']:
+            v['what'] = f"{label}: {v.get('what')}"
+        for k in res_all:
+            res_all[k] += res.get(k, [])
+        src = c.src
+        if any('finding' not in v for v in res['violations']):
+            return dict(status='ok', res=res_all, tally=T.as_dict(), src=src, keys=list(c.keys),
+                        smap={k: str(v) for k, v in c.smap.items()}, exp_spec=ex,
+                        history=[str(o)[:120] for o in ops] + [f"overrides applied to the {which} template"])
+    return dict(status='ok', res=res_all, tally=T.as_dict(), src=src, keys=[], smap={}, exp_spec=exp_d,
+                history=[str(o)[:120] for o in ops] + [f"overrides applied to the {which} template"])
+
+
 def job_fn(job):
+    if job.get('derive'):
+        return derive_job(job)
     rnd = random.Random(job['seed'])
     spec, fp = base_spec(job['shared'], job['hier'])
     ops, exp, kw = gen_history(spec, fp, rnd, job['length'], job['hier'])
@@ -175,6 +230,11 @@ def run(tier='quick', seed=0, only=None, verbose=False):
                 jobs.append(dict(key=f"hist:{seed}:{i}:shared={shared}:hier={hier}|vec={vec}", seed=seed * 1000 + i,
                                  shared=shared, hier=hier, length=(i % 3) if tier == 'quick' else 1 + i % 5,
                                  vectorize=vec, spec=base_spec(shared, hier)[0]))
+    for i in range(4 if tier == 'quick' else 40):
+        for on in ('derived', 'base'):
+            jobs.append(dict(key=f"derive:{seed}:{i}:on={on}|vec={bool(i % 2)}", seed=seed * 1000 + 500 + i, shared=bool(i % 3),
+                             hier=True, length=1 + i % 3, vectorize=bool(i % 2), derive=True, derive_on=on,
+                             spec=base_spec(bool(i % 3), True)[0]))
     if only:
         jobs = [j for j in jobs if only in j['key']]
     tvjobs.run_tv_jobs(rep, jobs, verbose=verbose, fn=job_fn)
